@@ -102,7 +102,7 @@ func layouts() map[string][]string {
 		"reversed":           names(rev...),
 		"only-note-keys":     append([]string{"Key: W"}, names(note...)...), // no action key is lit; LED 0 is an unmapped key
 		"mapped-key-at-led0": names(append([]string{"KEY_X"}, note[:4]...)...), // no action LEDs, LED 0 = a key that goes out of range
-		"unknown-names":      append(append([]string{"Logo", "Key: W"}, names(all...)...), "Underglow 1", "Key: Q"),
+		"unknown-names":      append(append([]string{"Logo", "Key: W"}, names(all...)...), "Underglow 1", "Key: E"),
 		"some-actions-missing": names("KEY_Z", "KEY_F2", "KEY_F6", "KEY_A", "KEY_S", "KEY_X", "KEY_ESC"),
 	}
 }
@@ -125,6 +125,8 @@ func (s *server) UpdateLEDs(i int, c []openrgb.Color) error {
 	s.last = c
 	return nil
 }
+
+var maxPts = 3000000
 
 var hnd = input.Handler{Name: "", DeviceInfo: input.VerifDeviceInfo("event3", "Dummy", "phys0", input.InputID{}, "", nil)}
 
@@ -152,6 +154,7 @@ type walker struct {
 	hist   []string
 	octF, semF, mapF, chF map[int]string // value -> rendered colours of the indicator keys (functional dependence)
 	bad    int
+	seen   map[string]bool
 }
 
 func (w *walker) frame() []openrgb.Color {
@@ -165,6 +168,7 @@ func (w *walker) frame() []openrgb.Color {
 
 func (w *walker) send(e *input.InputEvent, what string) {
 	vsched.Out[*input.InputEvent](w.in).Send(e)
+	w.res.Add("transitions", 1)
 	vsched.Out[*input.InputEvent](w.in).Send(syn) // barrier: the event has been processed when this completes
 	w.hist = append(w.hist, what)
 	if len(w.hist) > 12 {
@@ -174,6 +178,7 @@ func (w *walker) send(e *input.InputEvent, what string) {
 
 func (w *walker) midiIn(m midi.Event, what string) {
 	vsched.Out[midi.Event](w.mi).Send(m)
+	w.res.Add("transitions", 1)
 	vsched.Out[midi.Event](w.mi).Send(midi.ControlChangeEvent(0, 7, 1)) // barrier (ignored message type)
 	w.hist = append(w.hist, what)
 	if len(w.hist) > 12 {
@@ -254,6 +259,12 @@ func (w *walker) check(chanColor map[int]openrgb.Color) {
 	f := w.frame()
 	w.res.Add("evaluations", 1)
 	w.res.Add("frames_checked", 1)
+	w.res.Add("executions", 1) // one frame of the real loop judged = one trace validated against the implementation
+	st := fmt.Sprintf("%s|%d|%d|%d|%d|%v|%v", w.layout, w.r.mp, w.r.ch, w.r.oct, w.r.sem, w.r.held, w.r.ext)
+	if !w.seen[st] {
+		w.seen[st] = true
+		w.res.Add("states", 1)
+	}
 	if len(f) != len(w.srv.leds) {
 		w.violate("frame-size", w.layout, fmt.Sprintf("frame has %d colours for %d LEDs", len(f), len(w.srv.leds)))
 		return
@@ -411,7 +422,7 @@ func runLayout(res *vutil.Result, name string, leds []string, tier string) {
 			}
 		})
 		w := &walker{res: res, layout: name, srv: srv, in: in, mi: mi, r: ref{held: map[string]int{}, ext: map[[2]int]bool{}},
-			octF: map[int]string{}, semF: map[int]string{}, mapF: map[int]string{}, chF: map[int]string{}}
+			octF: map[int]string{}, semF: map[int]string{}, mapF: map[int]string{}, chF: map[int]string{}, seen: map[string]bool{}}
 		// wait for the LED loop to be up
 		for srv.frames < 1 {
 			vsched.SleepL(1e6, "wait-frame")
@@ -456,6 +467,7 @@ func runLayout(res *vutil.Result, name string, leds []string, tier string) {
 			name string
 			f    func()
 		}
+	walk:
 		for mp := 0; mp < len(mappings); mp++ {
 			for ch := 0; ch < 16; ch++ {
 				if contains(chans, ch) {
@@ -469,7 +481,7 @@ func runLayout(res *vutil.Result, name string, leds []string, tier string) {
 						}
 						for {
 							if w.bad > 25 {
-								return
+								break walk // enough evidence: go straight to the disconnect
 							}
 							for _, hs := range heldSets {
 								for _, k := range hs {
@@ -566,7 +578,10 @@ func runLayout(res *vutil.Result, name string, leds []string, tier string) {
 			w.violate("final-frame-not-red", name, fmt.Sprintf("after disconnect the last frame is %v", srv.last))
 		}
 		vsched.CloseBidi(out)
-	}, nil, vsched.Options{MaxPoints: 1 << 30, DefaultSleepBudget: 0})
+	}, nil, vsched.Options{MaxPoints: maxPts, DefaultSleepBudget: 0})
+	if x.HorizonHit {
+		res.Infra = fmt.Sprintf("layout %s: scheduling-point horizon hit after %d points (frames=%d): the walk does not make progress", name, len(x.Points), srv.frames)
+	}
 	if x.Panic != "" {
 		res.Violate("led-loop-panics", name, x.Panic, map[string]interface{}{"layout": name, "led_names": leds})
 	}
